@@ -248,8 +248,13 @@ def parse_san_log(text):
 
 
 # ----------------------------------------------------------------------------- build
+# checks against a scratch copy (VERIF_REPO set, e.g. selftest.py) build in their own directory,
+# so that they cannot clobber a check of the same property that runs against /repo at the same time
+_BUILD_TAG = "" if REPO == "/repo" else "-alt%d" % os.getpid()
+
+
 def variant_dir(pid, v):
-    return os.path.join(HERE, ".build", pid, v["name"])
+    return os.path.join(HERE, ".build", pid + _BUILD_TAG, v["name"])
 
 
 def compile_jobs(pid, chk, v):
@@ -647,7 +652,7 @@ def main():
     if a.only:
         names = a.only.split(",")
         variants = [v for v in variants if v["name"] in names]
-    bdir = os.path.join(HERE, ".build", pid)
+    bdir = os.path.join(HERE, ".build", pid + _BUILD_TAG)
     shutil.rmtree(bdir, ignore_errors=True)
     os.makedirs(bdir)
     log("[%s] tier=%s seed=%d repo=%s variants=%s" % (pid, a.tier, a.seed, REPO, ",".join(v["name"] for v in variants)))
